@@ -6,7 +6,7 @@
 From Coq Require Import Reals Lra Lia ZArith Psatz.
 From Coq Require Import Floats.SpecFloat.
 From Flocq Require Import Core BinarySingleNaN Relative.
-From Utp Require Import Base.Prelude Cubic.F64 Cubic.Cubic Cubic.Cubic_Proofs.
+From Utp Require Import Base.Prelude Cubic.F64 Cubic.Cubic Cubic.C15_Pred2 Cubic.Cubic_Proofs.
 Open Scope R_scope.
 
 (* ---- absolute rounding error: |x| <= 2^e  ->  |fl(x) - x| <= 2^(e-54)  (half an ulp) *)
@@ -579,3 +579,351 @@ Proof.
         injection E as <-. apply ack_tail_fine; try assumption; lia.
 Qed.
 End AckFine.
+
+(* ---- a_tight: cwnd <= max(rwnd, 2) is known *)
+Definition tight_inv (s : cubic) (a : c15_acc) : Prop :=
+  a_tight a = true -> is_finite (cwnd s) = true /\ B2R (cwnd s) <= Rmax (B2R (rwnd s)) 2.
+
+Lemma cwnd_ok_fin : forall c : f64, cwnd_ok c -> is_finite c = true -> 0 <= B2R c.
+Proof. intros c [->|[_ H]] F; [discriminate F | exact H]. Qed.
+
+Section Tight.
+Variable cbrt : f64 -> f64.
+Variable powf3 : f64 -> f64.
+
+Lemma step_tight : forall s a o s' w ss m, inv s a -> cwnd_ok (cwnd s) -> tight_inv s a ->
+  c15_op_dom o = true -> cubic_step cbrt powf3 s o = Some s' ->
+  tight_inv s' (c15_next a o w ss m).
+Proof.
+  intros s a o s' w ss m (Em & Hm & Hok & Hl & Hf & Ew & Es) Hc Ht Hd E.
+  pose proof Hok as [Frw Hrw]. destruct f64_2_correct as [F2 V2].
+  destruct o as [win|now len rtt| |now|cb sb|m']; cbn [cubic_step] in E; unfold tight_inv, c15_next.
+  - injection E as <-. cbn [a_tight cubic_set_remote_window cwnd rwnd]. intros T.
+    apply andb_true_iff in T. destruct T as [T T3]. apply andb_true_iff in T. destruct T as [T1 T2].
+    destruct (Ht T1) as [Fc Hle]. split; [exact Fc|].
+    destruct (Hf T2) as [Hw Vrw].
+    unfold c15_op_dom in Hd. assert (Hwin : (0 <= win < 2 ^ 32)%Z) by (unfold c15_u32, M32 in Hd; lia).
+    destruct (set_rw_ok _ _ Hm Hwin) as [_ V']. rewrite V'.
+    apply Rle_trans with (1 := Hle). apply Rle_max_compat_r. rewrite Vrw. apply rnd_le.
+    pose proof (mss_R _ Hm) as HM. apply Z.leb_le in T3.
+    assert (IZR (a_win a) <= IZR win) by (apply IZR_le; exact T3).
+    assert (0 < / IZR (mss s)) by (apply Rinv_0_lt_compat; lra). unfold Rdiv. nra.
+  - cbn [a_tight]. destruct (on_ack_cases _ _ _ _ _ _ E) as [->|[X ->]]; [exact Ht|].
+    intros _. cbn [cubic_with_cwnd cwnd rwnd]. destruct (finish_ok X (rwnd s) Frw) as [F [_ H]].
+    split; assumption.
+  - injection E as <-. cbn [a_tight cubic_on_retransmission_timeout cwnd rwnd]. intros _.
+    destruct f64_1_correct as [F1 V1]. split; [exact F1|]. rewrite V1.
+    apply Rle_trans with 2; [lra | apply Rmax_r].
+  - injection E as <-. cbn [a_tight]. intros T. destruct (Ht T) as [Fc Hle].
+    destruct (enter_recovery_cwnd_le cbrt s now Fc (cwnd_ok_fin _ Hc Fc)) as (F' & _ & [_ H'] & _).
+    split; [exact F'|]. cbn [cubic_on_enter_recovery rwnd] in *. lra.
+  - injection E as <-. cbn [a_tight cubic_on_recovered cwnd rwnd]. intros _.
+    destruct (finish_ok (fdiv (f64_of_Z cb) (f64_of_Z (mss s))) (rwnd s) Frw) as [F [_ H]].
+    split; assumption.
+  - injection E as <-. unfold cubic_set_mss. rewrite Em, (Z.eqb_sym (a_mss a) m').
+    destruct (m' =? a_mss a)%Z; cbn [a_tight]; [exact Ht | intros T; discriminate T].
+Qed.
+End Tight.
+
+(* ---- a_pend: the byte window recorded before a run of set_mss calls *)
+Definition u53 : R := / 9007199254740992.
+
+(* cwnd * mss is x0 up to k accumulated rescaling errors; x0 is the unclamped real window
+   whose truncation was recorded as wb *)
+Definition pend_facts (k : Z) (wb : Z) (s : cubic) (x0 D : R) : Prop :=
+  2 <= x0 /\ IZR wb - / 1024 <= x0 <= IZR wb + 1 + / 1024 /\
+  is_finite (cwnd s) = true /\
+  B2R (cwnd s) * IZR (mss s) = x0 * (1 + D) /\ Rabs D <= IZR k * (4 * u53).
+
+Definition pend_inv (n : Z) (s : cubic) (a : c15_acc) : Prop :=
+  forall wb mb, a_pend a = Some (wb, mb) ->
+    (2 * mb + 1 < wb)%Z -> (wb + 1 < a_win a)%Z -> (a_win a < 2 ^ 32)%Z ->
+    exists (k : Z) (x0 D : R), (0 <= k <= n)%Z /\ pend_facts k wb s x0 D.
+
+(* creation: peer window in force, cwnd <= max(rwnd,2), recorded window strictly above 2 mss *)
+Lemma pend_init : forall s win, mss_ok (mss s) -> (0 <= win < 2 ^ 32)%Z ->
+  is_finite (rwnd s) = true -> B2R (rwnd s) = rnd (IZR win / IZR (mss s)) ->
+  is_finite (cwnd s) = true -> 0 <= B2R (cwnd s) <= Rmax (B2R (rwnd s)) 2 ->
+  (2 * mss s + 1 < cubic_window s)%Z ->
+  pend_facts 0 (cubic_window s) s (B2R (cwnd s) * IZR (mss s)) 0.
+Proof.
+  intros s win Hm Hw Frw Vrw Fc Hc Hgt.
+  destruct (rho_bytes _ _ Hm Hw) as [Hrho HrM]. cbv zeta in Hrho, HrM. rewrite <- Vrw in Hrho, HrM.
+  assert (Hok : rwnd_ok (rwnd s)) by (split; assumption).
+  pose proof (mss_R _ Hm) as HM.
+  rewrite (window_val_fin s Hm Hok Fc) in *.
+  set (c := B2R (cwnd s)) in *. set (rho := B2R (rwnd s)) in *. set (M := IZR (mss s)) in *.
+  destruct (clamp_range c rho (proj1 Hrho)) as [V0 V1].
+  assert (HvM : 0 <= clamp c rho * M) by nra.
+  assert (HP : 0 <= rnd (clamp c rho * M)) by (apply rnd_ge_0; exact HvM).
+  pose proof (Ztrunc_le_self _ HP) as Hlo. pose proof (Ztrunc_gt_pred _ HP) as Hhi.
+  set (wb := Ztrunc (rnd (clamp c rho * M))) in *.
+  assert (Hwb : IZR (2 * mss s) + 2 <= IZR wb).
+  { replace 2 with (IZR 2) at 2 by reflexivity. rewrite <- plus_IZR. apply IZR_le. lia. }
+  rewrite mult_IZR in Hwb. fold M in Hwb.
+  assert (Hv2 : 2 < clamp c rho).
+  { destruct (Rlt_dec 2 (clamp c rho)) as [|N]; [assumption|]. exfalso.
+    assert (rnd (clamp c rho * M) <= IZR (2 * mss s)).
+    { apply rnd_le_fmt; [apply fmt_Z; unfold mss_ok in Hm; lia|]. rewrite mult_IZR. fold M. nra. }
+    rewrite mult_IZR in H. fold M in H. lra. }
+  assert (Hc2 : 2 < c) by (unfold clamp, Rmin, Rmax in Hv2; repeat destruct (Rle_dec _ _); lra).
+  assert (Hcr : c <= rho) by (destruct Hc as [_ Hc]; unfold Rmax in Hc; destruct (Rle_dec _ _); lra).
+  assert (Ev : clamp c rho = c) by (unfold clamp, Rmin, Rmax; repeat destruct (Rle_dec _ _); lra).
+  rewrite Ev in *.
+  assert (Hx : 0 <= c * M <= 8589934592).
+  { split; [nra|]. assert (IZR win <= 4294967295) by (apply IZR_le; lia). nra. }
+  pose proof (err_2_33 _ Hx) as E. apply Rabs_le_inv in E.
+  unfold pend_facts. split; [nra|]. split; [split; lra|]. split; [exact Fc|]. split; [unfold c, M; ring|].
+  rewrite Rabs_R0. unfold u53. lra.
+Qed.
+
+(* one effective set_mss: one more rescaling error *)
+Lemma pend_step : forall s m' k wb x0 D, mss_ok (mss s) -> mss_ok m' -> mss s <> m' ->
+  (0 <= k < PEND_MAX)%Z -> (wb < 2 ^ 32)%Z ->
+  pend_facts k wb s x0 D ->
+  exists D', pend_facts (k + 1) wb (cubic_set_mss s m') x0 D'.
+Proof.
+  intros s m' k wb x0 D Hm Hm' Hne Hk Hwb (H2 & Hx0 & Fc & Eq & HD).
+  pose proof (mss_R _ Hm) as HM. pose proof (mss_R _ Hm') as HM'.
+  assert (Hk' : 0 <= IZR k <= 65535) by (unfold PEND_MAX in Hk; split; apply IZR_le; lia).
+  assert (Hwb' : IZR wb <= 4294967295) by (apply IZR_le; lia).
+  unfold u53 in HD. apply Rabs_le_inv in HD.
+  assert (HD' : - / 34359738368 <= D <= / 34359738368) by (split; nra).
+  assert (Hy : 1 <= B2R (cwnd s) * IZR (mss s) <= 8589934592) by (rewrite Eq; split; nra).
+  assert (Hinv : / 65536 <= / IZR (mss s) <= 1).
+  { split; [apply Rinv_le_contravar; lra|]. rewrite <- Rinv_1. apply Rinv_le_contravar; lra. }
+  assert (Hc : / 65536 <= B2R (cwnd s) <= 8589934592).
+  { assert (Ec : B2R (cwnd s) = B2R (cwnd s) * IZR (mss s) * / IZR (mss s)) by (field; lra).
+    rewrite Ec. split; nra. }
+  destruct (set_mss_rescales s m' Hm Hm' Hne Fc) as (_ & Em' & _ & Fc' & d & Hd & Eq').
+  { split; [|lra]. apply Rle_trans with (/ 65536); [|lra]. apply Rinv_le_contravar; lra. }
+  cbv zeta in Em', Fc', Eq'. rewrite eps_val in Hd. apply Rabs_le_inv in Hd.
+  exists (D + d + D * d). unfold pend_facts.
+  split; [exact H2|]. split; [exact Hx0|]. split; [exact Fc'|]. split.
+  - rewrite Em', Eq', Eq. ring.
+  - unfold u53. rewrite plus_IZR. apply Rabs_le. split; nra.
+Qed.
+
+(* the peer window is re-applied after at most PEND_MAX effective MSS changes *)
+Lemma pend_check : forall s win k wb x0 D, mss_ok (mss s) -> (0 <= win < 2 ^ 32)%Z ->
+  (0 <= k <= PEND_MAX)%Z -> (wb + 1 < win)%Z ->
+  pend_facts k wb s x0 D ->
+  let w := cubic_window (cubic_set_remote_window s win) in
+  let expect := Z.max wb (Z.min (2 * mss s) win) in
+  (expect - 1 <= w <= expect + 1)%Z.
+Proof.
+  intros s win k wb x0 D Hm Hw Hk Hlt (H2 & Hx0 & Fc & Eq & HD). cbv zeta.
+  pose proof (mss_R _ Hm) as HM.
+  assert (Hk' : 0 <= IZR k <= 65536) by (unfold PEND_MAX in Hk; split; apply IZR_le; lia).
+  assert (Hwin : IZR wb + 2 <= IZR win).
+  { replace 2 with (IZR 2) by reflexivity. rewrite <- plus_IZR. apply IZR_le. lia. }
+  assert (Hwin' : IZR win <= 4294967295) by (apply IZR_le; lia).
+  unfold u53 in HD. apply Rabs_le_inv in HD.
+  assert (HD' : - / 34359738368 <= D <= / 34359738368) by (split; nra).
+  destruct (window_bounds s win Hm Hw) as (B1 & B2 & B3). cbv zeta in B1, B2, B3.
+  set (s1 := cubic_set_remote_window s win) in *.
+  destruct (set_rw_ok _ _ Hm Hw) as [Hok1 V1].
+  destruct (rho_bytes _ _ Hm Hw) as [Hrho HrM]. cbv zeta in Hrho, HrM. rewrite <- V1 in Hrho, HrM.
+  change (fdiv (f64_of_Z win) (f64_of_Z (mss s))) with (rwnd s1) in Hok1, V1, Hrho, HrM.
+  assert (E1 : cubic_window s1 = Ztrunc (rnd (clamp (B2R (cwnd s)) (B2R (rwnd s1)) * IZR (mss s))))
+    by (apply (window_val_fin s1 Hm Hok1 Fc)).
+  set (c := B2R (cwnd s)) in *. set (rho := B2R (rwnd s1)) in *. set (M := IZR (mss s)) in *.
+  assert (Hy : IZR wb - 1 / 4 - / 1024 <= c * M <= IZR wb + 1 + 1 / 4 + / 1024) by (rewrite Eq; split; nra).
+  assert (Hy0 : 1 <= c * M) by (rewrite Eq; nra).
+  assert (Hc0 : 0 <= c) by nra.
+  destruct (Rle_dec 2 c) as [C2|C2].
+  - assert (Hcr : c < rho).
+    { destruct (Rlt_dec c rho) as [|N]; [assumption|]. exfalso. assert (rho * M <= c * M) by nra. lra. }
+    assert (Ev : clamp c rho = c) by (unfold clamp, Rmin, Rmax; repeat destruct (Rle_dec _ _); lra).
+    rewrite Ev in E1.
+    assert (Hx : 0 <= c * M <= 8589934592) by lra.
+    pose proof (err_2_33 _ Hx) as E. apply Rabs_le_inv in E.
+    set (P := rnd (c * M)) in *.
+    assert (HP : 0 <= P) by (apply rnd_ge_0; lra).
+    assert (L1 : (wb - 1 <= Ztrunc P)%Z) by (apply Ztrunc_ge_pred; lra).
+    assert (L2 : (Ztrunc P <= wb + 1)%Z) by (apply Ztrunc_lt_succ; [exact HP | rewrite plus_IZR; lra]).
+    assert (L3 : (2 * mss s <= wb + 1)%Z).
+    { assert (IZR (2 * mss s) < IZR (wb + 2)); [|apply lt_IZR in H; lia].
+      rewrite mult_IZR, plus_IZR. fold M. nra. }
+    assert (L4 : (2 * mss s <= Ztrunc P)%Z).
+    { rewrite <- (Ztrunc_IZR (2 * mss s)). apply Ztrunc_le.
+      apply rnd_ge_fmt; [apply fmt_Z; unfold mss_ok in Hm; lia|]. rewrite mult_IZR. fold M. nra. }
+    rewrite E1. lia.
+  - assert (Hv2 : clamp c rho <= 2) by (unfold clamp, Rmin, Rmax; repeat destruct (Rle_dec _ _); lra).
+    destruct (clamp_range c rho (proj1 Hrho)) as [V0 _].
+    assert (L4 : (cubic_window s1 <= 2 * mss s)%Z).
+    { rewrite E1, <- (Ztrunc_IZR (2 * mss s)). apply Ztrunc_le.
+      apply rnd_le_fmt; [apply fmt_Z; unfold mss_ok in Hm; lia|]. rewrite mult_IZR. fold M. nra. }
+    assert (L3 : (wb <= 2 * mss s)%Z).
+    { assert (IZR wb < IZR (2 * mss s + 1)); [|apply lt_IZR in H; lia].
+      rewrite plus_IZR, mult_IZR. fold M. nra. }
+    lia.
+Qed.
+
+(* ---- assembling: c15_check true = c15_check false + the extra clauses *)
+Lemma check_fine_split : forall a o w ss m,
+  c15_check true a o w ss m = c15_check false a o w ss m && c15_fine_extra a o w ss m.
+Proof.
+  intros a o w ss m. destruct o; unfold c15_check, c15_fine_extra; cbn [andb];
+    rewrite ?andb_true_r, ?andb_assoc; reflexivity.
+Qed.
+
+Definition next_n (n : Z) (o : cubic_op) : Z := match o with SetMss _ => (n + 1)%Z | _ => 0%Z end.
+
+Definition inv2 (n : Z) (s : cubic) (a : c15_acc) : Prop :=
+  inv s a /\ (0 <= n <= PEND_MAX)%Z /\ cwnd_ok (cwnd s) /\ cwnd_ok (ssthresh s) /\
+  tight_inv s a /\ pend_inv n s a.
+
+Section FineTrace.
+Variable cbrt : f64 -> f64.
+Variable powf3 : f64 -> f64.
+
+Lemma step_pend : forall n s a o s', inv2 n s a -> c15_op_dom o = true ->
+  (match o with SetMss _ => (n < PEND_MAX)%Z | _ => True end) ->
+  cubic_step cbrt powf3 s o = Some s' ->
+  pend_inv (next_n n o) s' (c15_next a o (cubic_window s') (cubic_sshthresh s') (cubic_smss s')).
+Proof.
+  intros n s a o s' (Hinv & Hn & Hc & Hs & Ht & Hp) Hd Hlim E.
+  pose proof Hinv as (Em & Hm & Hok & Hl & Hf & Ew & Es).
+  destruct o as [win|now len rtt| |now|cb sb|m']; unfold pend_inv, c15_next;
+    try (cbn [a_pend]; intros wb mb Ep; discriminate Ep).
+  cbn [cubic_step] in E. injection E as <-. cbn [next_n]. unfold c15_op_dom in Hd. apply mss_ok_b in Hd.
+  destruct (Z.eqb_spec m' (a_mss a)) as [Eq|Ne].
+  - assert (Es' : cubic_set_mss s m' = s)
+      by (unfold cubic_set_mss; rewrite Em, Eq, Z.eqb_refl; reflexivity).
+    rewrite Es'. cbn [a_pend a_win]. intros wb mb Ep H1 H2 H3.
+    destruct (Hp wb mb Ep H1 H2 H3) as (k & x0 & D & Hk & Hfacts).
+    exists k, x0, D. split; [lia | exact Hfacts].
+  - cbn [a_pend a_win]. intros wb mb Ep H1 H2 H3.
+    assert (Hne : mss s <> m') by (rewrite Em; intros C; apply Ne; symmetry; exact C).
+    destruct (a_pend a) as [[wb0 mb0]|] eqn:Epa.
+    + injection Ep as -> ->.
+      destruct (Hp wb mb Epa H1 H2 H3) as (k & x0 & D & Hk & Hfacts).
+      destruct (pend_step s m' k wb x0 D Hm Hd Hne) as [D' Hfacts']; [lia | lia | exact Hfacts |].
+      exists (k + 1)%Z, x0, D'. split; [lia | exact Hfacts'].
+    + destruct (a_fresh a) eqn:Ef; [|discriminate Ep]. destruct (a_tight a) eqn:Et; [|discriminate Ep].
+      cbn [andb] in Ep. injection Ep as <- <-.
+      destruct (Hf eq_refl) as [Hw Vrw]. destruct (Ht Et) as [Fc Hle].
+      rewrite Ew, <- Em in *.
+      pose proof (pend_init s (a_win a) Hm Hw (proj1 Hok) Vrw Fc (conj (cwnd_ok_fin _ Hc Fc) Hle) H1) as H0.
+      destruct (pend_step s m' 0 (cubic_window s) (B2R (cwnd s) * IZR (mss s)) 0 Hm Hd Hne) as [D' Hfacts'];
+        [unfold PEND_MAX; lia | lia | exact H0 |].
+      exists 1%Z, (B2R (cwnd s) * IZR (mss s)), D'. split; [lia | exact Hfacts'].
+Qed.
+
+Lemma step_extra : forall n s a o s', inv2 n s a -> c15_op_dom o = true ->
+  cubic_step cbrt powf3 s o = Some s' ->
+  c15_fine_extra a o (cubic_window s') (cubic_sshthresh s') (cubic_smss s') = true.
+Proof.
+  intros n s a o s' (Hinv & Hn & Hc & Hs & Ht & Hp) Hd E.
+  pose proof Hinv as (Em & Hm & Hok & Hl & Hf & Ew & Es).
+  destruct o as [win|now len rtt| |now|cb sb|m']; cbn [cubic_step] in E; unfold c15_fine_extra;
+    try reflexivity.
+  - (* SetRemoteWindow: the pend clause *)
+    injection E as <-.
+    destruct (a_pend a) as [[wb mb]|] eqn:Ep; [|reflexivity].
+    destruct ((win =? a_win a)%Z && (2 * mb + 1 <? wb)%Z && (wb + 1 <? win)%Z) eqn:G; [|reflexivity].
+    apply andb_true_iff in G. destruct G as [G G3]. apply andb_true_iff in G. destruct G as [G1 G2].
+    apply Z.eqb_eq in G1. apply Z.ltb_lt in G2. apply Z.ltb_lt in G3.
+    unfold c15_op_dom in Hd. assert (Hw : (0 <= win < 2 ^ 32)%Z) by (unfold c15_u32, M32 in Hd; lia).
+    destruct (Hp wb mb Ep G2) as (k & x0 & D & Hk & Hfacts); [lia | lia |].
+    pose proof (pend_check s win k wb x0 D Hm Hw) as PC. cbv zeta in PC. rewrite <- Em.
+    assert (Hk' : (0 <= k <= PEND_MAX)%Z) by lia.
+    specialize (PC Hk' G3 Hfacts). cbv zeta.
+    apply andb_true_iff. split; apply Z.leb_le; lia.
+  - (* OnAck *)
+    destruct (a_w a <? a_ss a)%Z eqn:G; [|reflexivity]. apply Z.ltb_lt in G. rewrite Ew, Es in G.
+    unfold c15_op_dom in Hd. assert (Hlen : (0 <= len < 2 ^ 32)%Z) by (unfold c15_u32, M32 in Hd; lia).
+    apply Z.leb_le. rewrite Ew.
+    exact (on_ack_fine powf3 s now len rtt s' Hm Hok Hc Hs Hlen E G).
+  - (* OnRto *)
+    injection E as <-. rewrite Ew, <- Em.
+    unfold cubic_sshthresh. cbn [cubic_on_retransmission_timeout ssthresh mss].
+    apply andb_true_iff. split.
+    + unfold c15_ss_lower_ok. apply Z.leb_le. exact (ss_lower s Hm Hok Hc).
+    + destruct (a_tight a) eqn:Et; [|reflexivity]. destruct (a_fresh a) eqn:Ef; [|reflexivity].
+      cbn [andb]. destruct (Hf eq_refl) as [Hw Vrw]. destruct (Ht Et) as [Fc Hle].
+      unfold c15_ss_upper_ok. apply Z.leb_le.
+      exact (ss_upper s (a_win a) Hm Hw (proj1 Hok) Vrw Fc (conj (cwnd_ok_fin _ Hc Fc) Hle)).
+  - (* OnEnterRecovery *)
+    injection E as <-. rewrite Ew, <- Em.
+    unfold cubic_sshthresh. cbn [cubic_on_enter_recovery ssthresh mss].
+    apply andb_true_iff. split.
+    + unfold c15_ss_lower_ok. apply Z.leb_le. exact (ss_lower s Hm Hok Hc).
+    + destruct (a_tight a) eqn:Et; [|reflexivity]. destruct (a_fresh a) eqn:Ef; [|reflexivity].
+      cbn [andb]. destruct (Hf eq_refl) as [Hw Vrw]. destruct (Ht Et) as [Fc Hle].
+      unfold c15_ss_upper_ok. apply Z.leb_le.
+      exact (ss_upper s (a_win a) Hm Hw (proj1 Hok) Vrw Fc (conj (cwnd_ok_fin _ Hc Fc) Hle)).
+Qed.
+
+Lemma step_fine : forall n s a o, inv2 n s a -> c15_op_dom o = true ->
+  (match o with SetMss _ => (n < PEND_MAX)%Z | _ => True end) ->
+  exists s', cubic_step cbrt powf3 s o = Some s' /\
+    c15_check true a o (cubic_window s') (cubic_sshthresh s') (cubic_smss s') = true /\
+    inv2 (next_n n o) s' (c15_next a o (cubic_window s') (cubic_sshthresh s') (cubic_smss s')).
+Proof.
+  intros n s a o Hinv2 Hd Hlim. pose proof Hinv2 as (Hinv & Hn & Hc & Hs & Ht & Hp).
+  destruct (step_ok cbrt powf3 s a o Hinv Hd) as (s' & E & Hchk & Hinv').
+  exists s'. split; [exact E|]. split.
+  - rewrite check_fine_split, Hchk. cbn [andb]. exact (step_extra n s a o s' Hinv2 Hd E).
+  - pose proof Hinv as (Em & Hm & Hok & _).
+    destruct (step_cwnd_ok cbrt powf3 s o s' Hm (proj1 Hok) Hd Hc Hs E) as [Hc' Hs'].
+    refine (conj Hinv' (conj _ (conj Hc' (conj Hs' (conj _ _))))).
+    + destruct o; cbn [next_n]; unfold PEND_MAX in *; lia.
+    + exact (step_tight cbrt powf3 s a o s' _ _ _ Hinv Hc Ht Hd E).
+    + exact (step_pend n s a o s' Hinv2 Hd Hlim E).
+Qed.
+
+Lemma run_go_step : forall n o r, setmss_run_go n (o :: r) = true ->
+  (match o with SetMss _ => (n < PEND_MAX)%Z | _ => True end) /\ setmss_run_go (next_n n o) r = true.
+Proof.
+  intros n o r H. destruct o; cbn [setmss_run_go next_n] in *; try (split; [exact I | exact H]).
+  apply andb_true_iff in H. destruct H as [H1 H2]. apply Z.ltb_lt in H1. split; assumption.
+Qed.
+
+Lemma trace_fine_go : forall ops s a n, inv2 n s a -> setmss_run_go n ops = true ->
+  c15_obs_go true a ops (cubic_trace cbrt powf3 s ops) = true.
+Proof.
+  induction ops as [|o ops IH]; intros s a n Hinv Hrun; [reflexivity|].
+  cbn [cubic_trace]. destruct (run_go_step n o ops Hrun) as [Hlim Hrun'].
+  destruct (a_dom a && c15_op_dom o) eqn:Ed.
+  - pose proof Ed as Ed'. apply andb_true_iff in Ed'. destruct Ed' as [_ Ed'].
+    destruct (step_fine n s a o Hinv Ed' Hlim) as (s' & E & Hc & Hi). rewrite E.
+    unfold cubic_obs. cbn [c15_obs_go]. rewrite Ed, Hc. exact (IH _ _ _ Hi Hrun').
+  - destruct (cubic_step cbrt powf3 s o) as [s'|]; unfold cubic_obs; cbn [c15_obs_go];
+      rewrite Ed; reflexivity.
+Qed.
+End FineTrace.
+
+Lemma inv2_init : forall mss0, c15_mss_ok mss0 = true -> inv2 0 (cubic_new 0 mss0) (c15_acc0 mss0).
+Proof.
+  intros m Hb. destruct f64_2_correct as [F2 V2].
+  refine (conj (inv_init m Hb) (conj _ (conj _ (conj _ (conj _ _))))).
+  - unfold PEND_MAX. lia.
+  - right. cbn [cubic_new cwnd]. split; [exact F2 | rewrite V2; lra].
+  - left. reflexivity.
+  - intros _. cbn [cubic_new cwnd rwnd]. split; [exact F2|]. rewrite V2. apply Rmax_r.
+  - intros wb mb Ep. discriminate Ep.
+Qed.
+
+(* (2) every clause of c15_obs_ok, rounding-sensitive ones included, on every model trace in which
+   at most PEND_MAX = 65536 set_mss calls are consecutive; for every cbrt / powf3 *)
+Lemma model_trace_fine_ok : forall (cbrt powf3 : f64 -> f64) mss0 ops,
+  setmss_runs_ok ops = true ->
+  c15_obs_ok mss0 ops (cubic_trace cbrt powf3 (cubic_new 0 mss0) ops) = true.
+Proof.
+  intros cbrt powf3 mss0 ops Hrun. unfold c15_obs_ok.
+  destruct (c15_mss_ok mss0) eqn:Hb.
+  - apply (trace_fine_go cbrt powf3 ops _ _ 0%Z); [apply inv2_init; exact Hb | exact Hrun].
+  - apply obs_go_out_of_dom. unfold c15_acc0. cbn [a_dom]. exact Hb.
+Qed.
+
+(* unconditional form, on the predicate of C15_Pred2.v *)
+Lemma model_trace_ok_b : forall (cbrt powf3 : f64 -> f64) mss0 ops,
+  c15_obs_ok_b mss0 ops (cubic_trace cbrt powf3 (cubic_new 0 mss0) ops) = true.
+Proof.
+  intros cbrt powf3 mss0 ops. unfold c15_obs_ok_b.
+  destruct (setmss_runs_ok ops) eqn:Hrun.
+  - apply model_trace_fine_ok. exact Hrun.
+  - apply model_trace_core_ok.
+Qed.
